@@ -11,7 +11,7 @@ from vf.engine.vc import Unsupported
 from vf.lib.scipy_models import sp_fn, RngVal, SCIPY_SHAPES
 from vf.contract import Contract, contract
 from ._util import (D, real, integer, sym_array, fresh_index, all_none_patterns, bind, elem, elem_nan, shape_of,
-                    dist_obj, tuple_eq)
+                    dist_obj, tuple_eq, same_data)
 from .families import FAMILIES, SCIPY_SLOTS, full_slots
 
 NORMFIT = "LogNormalNormFitDistribution"
@@ -542,7 +542,7 @@ def make_fit_contract(fam):
             if len(calls) != 1:
                 return
             call = calls[0]
-            cx.oblige("post.fit_data", call["data"] is self.sample, "post", "the data handed to scipy is the sample itself")
+            cx.oblige("post.fit_data", same_data(cx, call["data"], self.sample), "post", "the data handed to scipy is the sample itself")
             res = [term_of(r) for r in call["result"]]
             # free parameters are estimated: they are the result slots mapped back
             for p in ps:
